@@ -146,7 +146,8 @@ def main():
     chunks = [cases[i::nw] for i in range(nw)]
     from concurrent.futures import ThreadPoolExecutor
     with ThreadPoolExecutor(nw) as ex:
-        outs = list(ex.map(lambda ch: vf.impl("impl_calls.py", {"cases": ch}), chunks))
+        # every other worker first performs unrelated failing / raising checks (the verdicts must not depend on them: C12)
+        outs = list(ex.map(lambda kc: vf.impl("impl_calls.py", {"cases": kc[1], "prelude": kc[0] % 2 == 1}), list(enumerate(chunks))))
     cat_dtypes = {}
     results = {}
     for ch, o in zip(chunks, outs):
@@ -210,7 +211,7 @@ def main():
     R.coverage.update(evaluations=ncalls, distinct_nontrivial=len(nontriv), samples=samples, base_cases=len(cases),
                       rule="%d corpus + %d PRNG signatures of 1-5 array parameters (+ return 80%%), shapes from a hidden consistent assignment, ~22%% perturbed; each run under every admissible permutation "
                            "(all for <=3 params, sampled above; symbolic axes stay after their binders) x positional/keyword x typeguard/beartype x jaxtyped(typechecker=..)/jaxtyped(checker(f)) + jaxtyped dataclass. "
-                           "Oracles: (i) all variants of a case give one outcome; (ii) outcome == model walk (Coq, vm_compute). non-trivial = distinct case with >=2 params and >10 variants" % (len(CORPUS), n))
+                           "Half of the workers first run a prelude of failing / raising PyTree checks (faults in flatteners and leaf checks). Oracles: (i) all variants of a case give one outcome; (ii) outcome == model walk (Coq, vm_compute). non-trivial = distinct case with >=2 params and >10 variants" % (len(CORPUS), n))
     R.assumptions += ["typecheckers call isinstance on annotated parameters in declaration order and stop at the first failure (observed for typeguard 2.13.3 and beartype 0.22.9); not proved",
                       "arrays are NumPy arrays; symbolic axes without {arg} fields"]
     sys.exit(R.finish())
